@@ -397,8 +397,39 @@ var c27AggMods = []string{"", "", " by (a)", " by (b, job)", " without (a)", " w
 // or a template around it that forces the node kinds the property is about (range
 // selectors, subqueries, aggregations) to appear often.
 func c27Compose(t *rapid.T, rel string, o pqlgen.Options) string {
-	vec := func() string { return pqlgen.Expr(o, pqlgen.Vector).Draw(t, "vec") }
-	mat := func() string { return pqlgen.Expr(o, pqlgen.Matrix).Draw(t, "mat") }
+	if len(o.Durations) == 0 {
+		o.Durations = []string{"30s", "1m", "5m", "10m", "1h", "90s"}
+	}
+	// half of the operands are plain selectors that match whole metrics, so that vectors
+	// with several (float and histogram) elements are common
+	simpleSel := func() string {
+		m := rapid.SampledFrom(o.Metrics).Draw(t, "smetric")
+		switch rapid.IntRange(0, 5).Draw(t, "smatch") {
+		case 0:
+			return m + `{a!="b"}`
+		case 1:
+			return m + `{job=~".*"}`
+		case 2:
+			return `{__name__=~"m[12]"}`
+		}
+		return m
+	}
+	vec := func() string {
+		if rapid.Bool().Draw(t, "simplevec") {
+			return simpleSel()
+		}
+		return pqlgen.Expr(o, pqlgen.Vector).Draw(t, "vec")
+	}
+	mat := func() string {
+		if rapid.Bool().Draw(t, "simplemat") {
+			s := simpleSel() + "[" + rapid.SampledFrom(o.Durations).Draw(t, "srange") + "]"
+			if !o.NoOffset && rapid.IntRange(0, 4).Draw(t, "soff") == 0 {
+				s += " offset " + rapid.SampledFrom([]string{"30s", "1m", "-1m", "5m"}).Draw(t, "soffd")
+			}
+			return s
+		}
+		return pqlgen.Expr(o, pqlgen.Matrix).Draw(t, "mat")
+	}
 	subq := func() string {
 		s := fmt.Sprintf("(%s)[%s:%s]", vec(), rapid.SampledFrom([]string{"1m", "5m", "10m", "90s", "1h"}).Draw(t, "sqrange"),
 			rapid.SampledFrom([]string{"15s", "30s", "1m", "7s", "5m", "1s"}).Draw(t, "sqstep"))
@@ -486,8 +517,8 @@ func genC27(t *rapid.T) c27Case {
 	}
 	c.Eng = c27EngineOpts{
 		LookbackMs: rapid.SampledFrom([]int64{1000, 30000, 300000, 300000, 600000}).Draw(t, "lookback"),
-		Delayed:    rapid.IntRange(0, 5).Draw(t, "delayed") == 0,
-		UseST:      rapid.IntRange(0, 3).Draw(t, "usest") == 0,
+		Delayed:    rapid.IntRange(0, 5).Draw(t, "delayed") == 5,
+		UseST:      rapid.IntRange(0, 3).Draw(t, "usest") == 3,
 	}
 	c.Data = c27GenData(t, c27DataOpts{MaxSeries: 8, MinT: -600_000, MaxT: 3_600_000, Metrics: c27Metrics, LabelNames: c27Labels,
 		LabelValues: c27Values, Histograms: true, SpecialVals: true, ST: c.Eng.UseST,
